@@ -227,6 +227,7 @@ PROPS["C18"] = Prop(
     "Lemma L-pos (Verus) lifts the step contract by induction to the closed form for input of any length. Operator / name / keyword "
     "errors carry the stored position of their node (clauses of the K and V units of C06/C16/C20/C07).",
     kunits=props_lexer.UNITS["C18"],
+    vunits=[VUnit("l_pos", "l_pos", ["lemma L-pos: one-step scanner contract => closed form (line = 1 + newlines before-or-at, column = chars since the last newline)"])],
     assumptions=["token start capture in next_token and the `col -= 1` end adjustment are under contract only for the rejected-character case",
                  "`@L` positions attached by the generated parser are not under contract"],
     trusted_base=COMMON_TRUST,
